@@ -61,6 +61,9 @@ func (s *synchronizer) sync(_ context.Context, res Response) (Response, bool, er
 	if !res.Authorized && s.cycle.res.Authorized {
 		s.cycle.res.Authorized = false
 	}
+	if res.Err != nil && s.cycle.res.Err == nil {
+		s.cycle.res.Err = res.Err
+	}
 	if res.Command == CommandCommit && res.End > s.cycle.res.End {
 		s.cycle.res.End = res.End
 	}
@@ -68,5 +71,5 @@ func (s *synchronizer) sync(_ context.Context, res Response) (Response, bool, er
 	if fulfilled {
 		s.cycle.counter = 0
 	}
-	return res, fulfilled, nil
+	return s.cycle.res, fulfilled, nil
 }
